@@ -7,6 +7,7 @@ import (
 	"fmt"
 	"os"
 	"reflect"
+	"runtime"
 	"sort"
 	"strconv"
 )
@@ -71,7 +72,8 @@ func Param(name string) int { load(); return int(tape.Params[name]) }
 // Assume restricts the inputs considered from here on.
 func Assume(c bool) {
 	if !c {
-		fmt.Println("VP-ASSUME-FAIL")
+		_, file, line, _ := runtime.Caller(1)
+		fmt.Printf("VP-ASSUME-FAIL %s:%d\n", file, line)
 		os.Exit(4)
 	}
 }
@@ -79,7 +81,8 @@ func Assume(c bool) {
 // Assert states the property.
 func Assert(c bool, label string) {
 	if !c {
-		fmt.Println("VP-ASSERT-FAIL", label)
+		_, file, line, _ := runtime.Caller(1)
+		fmt.Printf("VP-ASSERT-FAIL %s (%s:%d)\n", label, file, line)
 		os.Exit(3)
 	}
 }
@@ -174,3 +177,29 @@ func DumpGlobals(pkg string, vars map[string]any) {
 		panic(err)
 	}
 }
+
+// Corpus returns the FEN strings collected by the driver from the repository's own tests (native validation only).
+func Corpus() []string {
+	fn := os.Getenv("VP_CORPUS")
+	if fn == "" {
+		return nil
+	}
+	data, err := os.ReadFile(fn)
+	if err != nil {
+		return nil
+	}
+	var out []string
+	start := 0
+	for i := 0; i <= len(data); i++ {
+		if i == len(data) || data[i] == '\n' {
+			if i > start {
+				out = append(out, string(data[start:i]))
+			}
+			start = i + 1
+		}
+	}
+	return out
+}
+
+// Disagree reports a specification/implementation disagreement found by a native validation run.
+func Disagree(what string) { fmt.Println("VP-CORPUS-DISAGREE", what) }
